@@ -56,8 +56,8 @@ pub enum SearchTier {
 mod pcmpestri_flags {
     /// Unsigned byte comparison
     pub const UBYTE_OPS: i32 = 0x00;
-    /// Compare for equality
-    pub const CMP_EQUAL_ORDERED: i32 = 0x08;
+    /// Substring search (_SIDD_CMP_EQUAL_ORDERED; 0x08 would be _SIDD_CMP_EQUAL_EACH)
+    pub const CMP_EQUAL_ORDERED: i32 = 0x0C;
     /// Return least significant index
     pub const LEAST_SIGNIFICANT: i32 = 0x00;
     /// Return most significant index
@@ -314,10 +314,14 @@ impl SimdStringSearch {
             return Some(pos);
         }
 
-        // Search remaining bytes
-        let remaining = &haystack[16..];
-        if let Some(pos) = unsafe { self.sse42_strchr_max_16(remaining, needle) } {
-            return Some(16 + pos);
+        // Search remaining bytes (1..=19 of them) in pieces of at most 16
+        let mut start = 16;
+        while start < haystack.len() {
+            let end = (start + 16).min(haystack.len());
+            if let Some(pos) = unsafe { self.sse42_strchr_max_16(&haystack[start..end], needle) } {
+                return Some(start + pos);
+            }
+            start = end;
         }
 
         None
